@@ -296,6 +296,217 @@ def build_variant(pg, c, v):
     return pg.PointIsotherm(isotherm_data=df, pressure_key="pressure", loading_key="loading", branch=branch, **common)
 
 
+# row labellings of a table WITHOUT branch marks (the marks are then guessed from the pressures): the kinds of build_variant plus tables that got
+# their labels through an operation (rows cut out of a longer table, every second row, two runs concatenated, rows dropped, a sort)
+GUESS_LABEL_KINDS = ["shift", "str", "reversed", "float", "datetime", "duplicate", "multi", "negative", "named", "one-based", "overlap-shift", "cut-out-of-a-log",
+                     "every-second-row", "concat-of-two-runs", "permuted-labels", "all-equal", "after-dropna", "categorical"]
+
+
+def _relabel(pd, rng, df, kind):
+    """The same rows in the same order under other row labels."""
+    n = len(df)
+    df = df.copy()
+    if kind == "shift":
+        df.index = range(7, 7 + n)
+    elif kind == "str":
+        df.index = [f"r{i}" for i in range(n)]
+    elif kind == "reversed":
+        df.index = list(reversed(range(n)))
+    elif kind == "float":
+        df.index = [0.5 + i for i in range(n)]
+    elif kind == "datetime":
+        df.index = pd.date_range("2020-01-01", periods=n)
+    elif kind == "duplicate":
+        df.index = [i // 2 for i in range(n)]
+    elif kind == "multi":
+        df.index = pd.MultiIndex.from_tuples([(i // 2, "ab"[i % 2]) for i in range(n)])
+    elif kind == "negative":
+        df.index = [-i for i in range(n)]
+    elif kind == "named":
+        df.index = pd.Index(range(n), name="point")
+    elif kind == "one-based":
+        df.index = range(1, n + 1)
+    elif kind == "overlap-shift":
+        k = rng.randrange(1, max(2, n))
+        df.index = range(k, k + n)
+    elif kind == "cut-out-of-a-log":
+        # rows of another sample in front of / behind ours; ours selected with a boolean mask: the labels of the log stay
+        a, b = rng.randrange(1, 6), rng.randrange(0, 4)
+        other = pd.concat([df.iloc[[0] * a], df, df.iloc[[n - 1] * b]], ignore_index=True)
+        mask = [False] * a + [True] * n + [False] * b
+        df = other.loc[mask]
+    elif kind == "every-second-row":
+        other = df.iloc[[j // 2 for j in range(2 * n)]].reset_index(drop=True)
+        df = other.iloc[::2]
+    elif kind == "concat-of-two-runs":
+        m = rng.randrange(1, n) if n > 1 else 0
+        df = pd.concat([df.iloc[:m].reset_index(drop=True), df.iloc[m:].reset_index(drop=True)])
+    elif kind == "permuted-labels":
+        lab = list(range(n))
+        rng.shuffle(lab)
+        df.index = lab
+    elif kind == "all-equal":
+        df.index = [0] * n
+    elif kind == "after-dropna":
+        # a row with a gap in a helper column in front / in the middle, removed by dropna(): the labels keep the hole
+        pos = rng.randrange(0, n + 1)
+        other = pd.concat([df.iloc[:pos], df.iloc[[0]], df.iloc[pos:]], ignore_index=True)
+        other["__helper"] = [float("nan") if j == pos else 1.0 for j in range(n + 1)]
+        df = other.dropna(subset=["__helper"]).drop(columns="__helper")
+    elif kind == "categorical":
+        df.index = pd.CategoricalIndex([f"c{i}" for i in range(n)])
+    else:
+        raise ValueError(kind)
+    assert len(df) == n
+    return df
+
+
+def _marks_of(pd, iso):
+    return [None if pd.isna(b) else (int(b) if float(b).is_integer() else float(b)) for b in iso.data_raw["branch"].tolist()]
+
+
+def _guessed_marks_section(ck, pg, c, i, sig):
+    """Clause "any row labelling" for inputs WITHOUT branch marks (round 8, C05-m2: all routes above hand the marks over — as argument, column or keyword —
+    so the guessing path `PointIsotherm(branch='guess')` (the default) / `ModelIsotherm(isotherm_data=<no branch column>)` never met a table whose
+    row labels are not 0..n-1).  The marks are a function of the SEQUENCE of pressures; the reference is the same tree on plain lists / the table with
+    default labels, tied to the explicit-marks routes by `explicit marks = the guessed ones -> same identifier`."""
+    # TODO (candidate defect of the unchanged tree, reported, kept out of the generators): marks handed over as a pandas Series whose labels differ from the
+    # table's — PointIsotherm(isotherm_data=df(index 1..4), ..., branch=pandas.Series([0,0,0,1])) stores the marks [0.0, 0.0, 1.0, NaN] (aligned on labels).
+    import pandas as pd
+    rng = ck.rng
+    mat = c["material"] if not c["material_props"] else {"name": c["material"], **c["material_props"]}
+    common = dict(material=mat, adsorbate=c["adsorbate"], temperature=c["temperature"], **c["units"], **c["meta"])
+    names = ["pressure", "loading"] + list(c["extra"])
+    cols = {k: list(c[k] if k in c else c["extra"][k]) for k in names}
+    n = len(cols["pressure"])
+    order = list(range(n))
+    layout = "as generated"
+    r = rng.random()
+    if r < 0.2 and n > 2:
+        # the pressure maximum anywhere (also first / last / repeated): rows permuted jointly
+        rng.shuffle(order)
+        layout = "rows permuted"
+    elif r < 0.3 and n > 2:
+        k = rng.randrange(1, n)
+        order = order[k:] + order[:k]
+        layout = "rows rotated"
+    elif r < 0.75 and n > 2:
+        # a measured loop: up to the pressure maximum, then some of the points on the way down
+        fin = lambda j: cols["pressure"][j] if cols["pressure"][j] == cols["pressure"][j] else -1.0          # noqa
+        up = sorted(order, key=fin)
+        tail = sorted(rng.sample(up[:-1], rng.randrange(1, n - 1)), key=fin, reverse=True)
+        order = [j for j in up if j not in tail] + tail
+        layout = "rows up then down"
+    cols = {k: [v[j] for j in order] for k, v in cols.items()}
+    base = pd.DataFrame(cols)
+    kw = dict(pressure_key="pressure", loading_key="loading")
+    gsig = {**sig, "route": "branch marks guessed"}
+    try:
+        ref = pg.PointIsotherm(isotherm_data=base, **kw, **common)
+        idr = ref.iso_id
+        marks = _marks_of(pd, ref)
+    except Exception as e:  # noqa
+        ck.fail_case({**gsig, "clause": "route refused", "labels": "default"}, {"error": repr(e)[:300], "pressure": cols["pressure"], "content": c6full(c)})
+        return
+    ck.count(("guess-ref", i), bucket="route:guessed marks:reference (" + layout + "; " + ("both branches" if len(set(marks)) > 1 else "one branch") + ")")
+    detail = lambda **k: {"pressure": cols["pressure"], "loading": cols["loading"], "marks_with_default_labels": marks, "content": c6full(c), **k}          # noqa
+    if any(m not in (0, 1) for m in marks):
+        ck.fail_case({**gsig, "clause": "guessed marks are 0 / 1 for every point", "labels": "default"}, detail())
+        return
+    # explicit marks equal to the guessed ones: one content
+    try:
+        ex = pg.PointIsotherm(isotherm_data=base, branch=list(marks), **kw, **common)
+        ck.count(("guess-explicit", i), bucket="route:guessed marks = the same marks handed over")
+        if ex.iso_id != idr or not (ex == ref):
+            ck.fail_case({**gsig, "clause": "same content, different identifier", "labels": "default", "against": "the same marks handed over as a list"}, detail(ids=[idr, ex.iso_id], marks=_marks_of(pd, ex)))
+    except Exception as e:  # noqa
+        ck.fail_case({**gsig, "clause": "route refused", "labels": "default", "against": "the same marks handed over as a list"}, detail(error=repr(e)[:300]))
+
+    def same(other, labels, container, lab=None, ref=ref, idr=idr):
+        try:
+            oid, om = other.iso_id, _marks_of(pd, other)
+            eq = (other == ref) and (ref == other)
+        except Exception as e:  # noqa
+            ck.fail_case({**gsig, "clause": "route refused", "labels": labels, "container": container, "step": "identifier / =="}, detail(error=repr(e)[:300], row_labels=lab))
+            return
+        if oid != idr or not eq or om != marks:
+            ck.fail_case({**gsig, "clause": "same content, different identifier" if oid != idr else ("same identifier, but == says different" if not eq else "same points, other guessed marks"),
+                          "labels": labels, "container": container}, detail(ids=[idr, oid], marks=om, row_labels=lab))
+
+    # the two point columns alone (lists): reference of the containers that cannot carry extra columns
+    try:
+        ref2 = pg.PointIsotherm(pressure=list(cols["pressure"]), loading=list(cols["loading"]), **common)
+        id2 = ref2.iso_id
+        if _marks_of(pd, ref2) != marks or (not c["extra"] and id2 != idr):
+            ck.fail_case({**gsig, "clause": "same points, other guessed marks" if c["extra"] else "same content, different identifier", "labels": "none", "container": "lists"}, detail(ids=[idr, id2], marks=_marks_of(pd, ref2)))
+            ref2 = None
+    except Exception as e:  # noqa
+        ck.fail_case({**gsig, "clause": "route refused", "labels": "none", "container": "lists"}, detail(error=repr(e)[:300]))
+        ref2 = None
+    kinds = GUESS_LABEL_KINDS if ck.tier == "thorough" or i % 4 == 0 else rng.sample(GUESS_LABEL_KINDS, 6)
+    for kind in kinds:
+        df = _relabel(pd, rng, base, kind)
+        lab = [str(x) for x in df.index.tolist()][:40]
+        how = rng.choice(["default", "keyword guess", "from_isotherm", "column order"])
+        try:
+            if how == "from_isotherm":
+                other = pg.PointIsotherm.from_isotherm(ref, isotherm_data=df, **kw)
+            elif how == "column order":
+                other = pg.PointIsotherm(isotherm_data=df[list(reversed(df.columns))], **kw, **common)
+            elif how == "keyword guess":
+                other = pg.PointIsotherm(isotherm_data=df, branch="guess", **kw, **common)
+            else:
+                other = pg.PointIsotherm(isotherm_data=df, **kw, **common)
+        except Exception as e:  # noqa
+            ck.fail_case({**gsig, "clause": "route refused", "labels": kind, "container": "table/" + how}, detail(error=repr(e)[:300], row_labels=lab))
+            continue
+        ck.count(("guess-table", kind, how, i), bucket="route:guessed marks:table labels " + kind)
+        same(other, kind, "table/" + how, lab)
+        # the caller's table is not touched (no branch column written into it)
+        if "branch" in df.columns:
+            ck.fail_case({**gsig, "clause": "the caller's table is unchanged", "labels": kind, "container": "table/" + how}, detail(row_labels=lab))
+        if ref2 is not None and rng.random() < 0.5:
+            # pressure / loading as pandas Series that carry the labels
+            try:
+                other = pg.PointIsotherm(pressure=df["pressure"], loading=df["loading"], **common)
+            except Exception as e:  # noqa
+                ck.fail_case({**gsig, "clause": "route refused", "labels": kind, "container": "two Series"}, detail(error=repr(e)[:300], row_labels=lab))
+                continue
+            ck.count(("guess-series", kind, i), bucket="route:guessed marks:Series labels " + kind)
+            same(other, kind, "two Series", lab, ref2, id2)
+    if ref2 is not None:
+        for cont, mk in (("tuples", tuple), ("ndarrays", lambda xs: __import__("numpy").array(xs, dtype=float))):
+            try:
+                other = pg.PointIsotherm(pressure=mk(cols["pressure"]), loading=mk(cols["loading"]), **common)
+            except Exception as e:  # noqa
+                ck.fail_case({**gsig, "clause": "route refused", "labels": "none", "container": cont}, detail(error=repr(e)[:300]))
+                continue
+            ck.count(("guess-arrays", cont, i), bucket="route:guessed marks:" + cont)
+            same(other, "none", cont, None, ref2, id2)
+    # model isotherms fitted to one guessed branch of such a table: the same points -> the same fit -> the same identifier
+    if i % 2 == 0 and not any(x != x for x in cols["pressure"] + cols["loading"]):
+        for mb in (["ads"] if 0 in marks else []) + (["des"] if 1 in marks else []):
+            try:
+                mref = pg.ModelIsotherm(isotherm_data=base, model="Henry", branch=mb, **kw, **common)
+                mid, mpar = mref.iso_id, dict(mref.model.params)
+            except Exception:  # noqa
+                ck.count(("guess-model-refused", i, mb), nontrivial=False, bucket="route:guessed marks:model fit refused on the default labels")
+                continue
+            for kind in rng.sample(GUESS_LABEL_KINDS, 3):
+                df = _relabel(pd, rng, base, kind)
+                lab = [str(x) for x in df.index.tolist()][:40]
+                msig = {**gsig, "class": "model", "labels": kind, "container": "table -> ModelIsotherm(Henry, " + mb + ")"}
+                try:
+                    other = pg.ModelIsotherm(isotherm_data=df, model="Henry", branch=mb, **kw, **common)
+                    oid, opar = other.iso_id, dict(other.model.params)
+                except Exception as e:  # noqa
+                    ck.fail_case({**msig, "clause": "route refused"}, detail(error=repr(e)[:300], row_labels=lab, model_on_default_labels=mpar))
+                    continue
+                ck.count(("guess-model", kind, mb, i), bucket="route:guessed marks:model fitted from a table, labels " + kind)
+                if oid != mid or repr(opar) != repr(mpar) or not (other == mref):
+                    ck.fail_case({**msig, "clause": "same content, different identifier"}, detail(ids=[mid, oid], row_labels=lab, params=[mpar, opar]))
+
+
 def shrink_variant(pg, c, v, id0):
     """Reset one component of a failing representation after the other to the plain one (python float lists, 0/1 int list as argument,
     default row labels, natural column order ...) as long as the identifier still differs: what is left is what matters."""
@@ -633,6 +844,9 @@ def run(ck):
                     ck.fail_case({**sig, "clause": "same content, different identifier", "route": "from_isotherm"}, {"ids": [id0, other.iso_id], "content": c6full(c)})
             except Exception as e:  # noqa
                 ck.fail_case({**sig, "clause": "route refused", "route": "from_isotherm"}, {"error": repr(e)[:200], "content": c6full(c)})
+        # the branch marks are GUESSED (no marks handed over): the same points under any row labelling, container, slicing history; models fitted from such tables
+        if c["kind"] == "point":
+            _guessed_marks_section(ck, pg, c, i, sig)
         # a pressure unit handed over in a relative mode is not stored, hence not content (Props/C05/Labels.pressure_unit_not_stored_when_relative)
         if c["units"]["pressure_mode"] != "absolute":
             d = copy.deepcopy(c)
